@@ -40,16 +40,16 @@ def rule_cb1(A: Analysis, rep):
               "relative path from the entry's parent to dep_dir", "the link target is `%s`" % tgt)
     # the only skip: not a directory or empty; the link is created on every other path
     gs = A.path_guards(g, be, ln, fi)
-    skip_atoms = {"t(%s.is_dir())" % ddir, "t(any((True for _ in %s.iterdir())))" % ddir}
+    skip_atoms = {"t(%s.is_dir())" % ddir, "t(any((True for _v0 in %s.iterdir())))" % ddir}
     core = [frozenset(a for a in c if a[0] in skip_atoms) for c in gs]
-    ok = bool(gs) and all(c == frozenset({("t(%s.is_dir())" % ddir, True), ("t(any((True for _ in %s.iterdir())))" % ddir, True)}) for c in core)
+    ok = bool(gs) and all(c == frozenset({("t(%s.is_dir())" % ddir, True), ("t(any((True for _v0 in %s.iterdir())))" % ddir, True)}) for c in core)
     r = g.reach([be], removed=[ln], skip_labels=is_exc)
     ends = [n for n in r if any(m is hdr and is_back(lb) for m, lb in n.succ)]
     conts = [n for n in ends if isinstance(n.ast, ast.Continue)]
     ok2 = all(isinstance(n.ast, ast.Continue) for n in ends) and len(conts) == 1
     if ok2:
         gc_ = A.path_guards(g, be, conts[0], fi)
-        a1, a2 = "t(%s.is_dir())" % ddir, "t(any((True for _ in %s.iterdir())))" % ddir
+        a1, a2 = "t(%s.is_dir())" % ddir, "t(any((True for _v0 in %s.iterdir())))" % ddir
         forms = [[frozenset({(a1, False)}), frozenset({(a1, True), (a2, False)})], [frozenset({(a1, False)}), frozenset({(a2, False)})]]
         ok2 = any(sorted(map(sorted, gc_)) == sorted(map(sorted, f)) for f in forms)
     rep.check(ok and ok2, "CB1", "only missing/empty dependency outputs are skipped", l, "", "a dependency can be skipped for another reason: link guard [%s]" % " | ".join(fmt_conj(c) for c in gs))
